@@ -1255,3 +1255,97 @@ def self_test():  # noqa: F811
     ok = _self_test_base_vb()
     ok['visited_breaks'] = len(visited_breaks(ast.parse(POSITIVE_EXAMPLES['visited_breaks']).body[0])) == 1
     return ok
+
+
+def position_by_equality(fnode):
+    """[(loop, call)]: `for x in reversed(S): ... S.index(x)` - the position of the element the scan is at is looked up by
+    equality: when S holds two equal elements the first one's position is returned, not that of the element the scan reached.
+    Only scans that run backwards (reversed(S), S[::-1]) are reported: there the first equal element is never the one reached."""
+    out = []
+    for L in [x for x in ast.walk(fnode) if isinstance(x, (ast.For, ast.comprehension)) and isinstance(x.target, ast.Name)]:
+        it = L.iter
+        back = None
+        if isinstance(it, ast.Call) and isinstance(it.func, ast.Name) and it.func.id == 'reversed' and len(it.args) == 1:
+            back = it.args[0]
+        elif isinstance(it, ast.Subscript) and isinstance(it.slice, ast.Slice) and it.slice.lower is None and it.slice.upper is None \
+                and isinstance(it.slice.step, ast.UnaryOp) and isinstance(it.slice.step.op, ast.USub):
+            back = it.value
+        if back is None:
+            continue
+        coll = ast.unparse(back)
+        scope = L if isinstance(L, ast.For) else fnode
+        for c in ast.walk(scope):
+            if isinstance(c, ast.Call) and isinstance(c.func, ast.Attribute) and c.func.attr == 'index' and len(c.args) == 1 \
+                    and isinstance(c.args[0], ast.Name) and c.args[0].id == L.target.id and ast.unparse(c.func.value) == coll:
+                out.append((L, c))
+    return out
+
+
+POSITIVE_EXAMPLES['position_by_equality'] = """
+def last(stats, symbol):
+    for s in reversed(stats):
+        if s.symbol == symbol:
+            return stats.index(s), s
+    return None, None
+"""
+_self_test_base_pe = self_test
+
+
+def self_test():  # noqa: F811
+    ok = _self_test_base_pe()
+    ok['position_by_equality'] = len(position_by_equality(ast.parse(POSITIVE_EXAMPLES['position_by_equality']).body[0])) == 1
+    return ok
+
+
+def reads_reset_attribute(fnode):
+    """[(reset stmt, read node, var, attr)]: `v = cb.set_<attr>(v, <constant>)` resets one attribute of a compartment to its
+    neutral value and re-binds v to the new compartment; a later `v.<attr>` in the same block (before v is bound to something
+    else) reads the neutral value, not the one the compartment had - a 'move the attribute' that was written in the wrong order
+    transfers the constant."""
+    out = []
+
+    def const_like(e):
+        return isinstance(e, ast.Constant) and isinstance(e.value, (int, float)) or (
+            isinstance(e, ast.Call) and isinstance(e.func, ast.Attribute) and e.func.attr in ('integer', 'Integer', 'float')
+            and len(e.args) == 1 and isinstance(e.args[0], ast.Constant))
+    for holder in ast.walk(fnode):
+        for fld in ('body', 'orelse', 'finalbody'):
+            stmts = getattr(holder, fld, None)
+            if not isinstance(stmts, list):
+                continue
+            for i, s in enumerate(stmts):
+                if not (isinstance(s, ast.Assign) and len(s.targets) == 1 and isinstance(s.targets[0], ast.Name)
+                        and isinstance(s.value, ast.Call) and isinstance(s.value.func, ast.Attribute)
+                        and s.value.func.attr.startswith('set_') and len(s.value.args) == 2
+                        and isinstance(s.value.args[0], ast.Name) and s.value.args[0].id == s.targets[0].id
+                        and const_like(s.value.args[1])):
+                    continue
+                v, attr = s.targets[0].id, s.value.func.attr[len('set_'):]
+                for t in stmts[i + 1:]:
+                    hit = [a for a in ast.walk(t) if isinstance(a, ast.Attribute) and a.attr == attr
+                           and isinstance(a.value, ast.Name) and a.value.id == v and isinstance(a.ctx, ast.Load)]
+                    out.extend((s, a, v, attr) for a in hit)
+                    rebound = [a for a in ast.walk(t) if isinstance(a, (ast.Assign, ast.AugAssign, ast.AnnAssign, ast.For))
+                               and any(isinstance(n, ast.Name) and n.id == v
+                                       for tg in (a.targets if isinstance(a, ast.Assign) else [a.target]) for n in ast.walk(tg))]
+                    if any(not (isinstance(a, ast.Assign) and isinstance(a.value, ast.Call) and isinstance(a.value.func, ast.Attribute)
+                                and a.value.func.attr.startswith('set_') and a.value.func.attr != 'set_' + attr
+                                and a.value.args and isinstance(a.value.args[0], ast.Name) and a.value.args[0].id == v)
+                           for a in rebound):
+                        break
+    return out
+
+
+POSITIVE_EXAMPLES['reads_reset_attribute'] = """
+def f(cb, dosing_comp, comp):
+    dosing_comp = cb.set_bioavailability(dosing_comp, Expr.integer(1))
+    comp = cb.set_bioavailability(comp, dosing_comp.bioavailability)
+    return comp
+"""
+_self_test_base_rr = self_test
+
+
+def self_test():  # noqa: F811
+    ok = _self_test_base_rr()
+    ok['reads_reset_attribute'] = len(reads_reset_attribute(ast.parse(POSITIVE_EXAMPLES['reads_reset_attribute']).body[0])) == 1
+    return ok
